@@ -12,13 +12,15 @@ Inductive bobs :=
 | OExpire (was_armed : bool)                   (* the callback now set on the timer is committed to run (late callback regime) *)
 | ODeliver (i : N) (armgen : N) (tok : Z).     (* the i-th committed callback ran and sent tok; it had been set when armgen
                                                   non-empty batches had been handed out *)
-Inductive stim := SAdd (x : N) | SFlush | SFire (was_armed : bool) | SHoldA | SHoldT | SRelease | SComplete (k : N) | SRead.
+Inductive stim := SAdd (x : N) | SFlush | SFire (was_armed : bool) | SHoldA | SHoldT | SRelease | SComplete (k : N) | SFail (k : N) (mode : N) | SRead.
+(* SFail k mode: the k-th running fetch returns an error, with no results (mode 0), the first half (1) or all of them (2) *)
 Definition robs := (bool * bool * bool * N * N)%type.   (* adder call unfinished, adder held, time-out flusher held, fetches running, |Output| *)
 Definition rstep := (stim * robs)%type.
 
 Inductive case :=
 | BCase (max : N) (delay : bool) (ops : list bobs)
-| RCase (max : N) (delay : bool) (buf : N) (steps : list rstep) (added out : list N) (fetched : list (list N)) (settled : bool)
+| RCase (max : N) (delay : bool) (buf : N) (steps : list rstep) (added out : list N) (fetched : list (list N))
+        (fails : list (N * N)) (errs : list N) (settled : bool)   (* fails: (first item of a failed batch, mode); errs: first items, in the order the errors arrived *)
 | HCase (nadders per : N) (batches : list (list (N * N))).
 
 Fixpoint list_eqb {A} (eqb : A -> A -> bool) (a b : list A) : bool :=
@@ -75,6 +77,19 @@ Fixpoint stale_ok (ops : list bobs) (gen : N) (delivered dead : list Z) : bool :
 (* ------------------------------------------------------------------ reorder schedules *)
 
 Definition fetchN (l : list N) : list N := map (fun x => x + 1000) l.
+Fixpoint fail_mode (x : N) (fails : list (N * N)) : option N :=
+  match fails with
+  | [] => None
+  | (y, m) :: r => if x =? y then Some m else fail_mode x r
+  end.
+(* the outcome function of a case: what the harness's FetchBatch returned for each batch *)
+Definition fetchF (fails : list (N * N)) (ev : list N) : outcome N :=
+  match fail_mode (hd 0 ev) fails with
+  | None => FOk (fetchN ev)
+  | Some 0 => FErr []
+  | Some 1 => FErr (firstn (Nat.div2 (length ev)) (fetchN ev))
+  | Some _ => FErr (fetchN ev)
+  end.
 
 Record mstate := mkM {
   ms : rstate N N;
@@ -157,7 +172,7 @@ Fixpoint ins (x : nat * N) (l : list (nat * N)) : list (nat * N) :=
 Definition sort_running (l : list (nat * N)) := fold_right ins [] l.
 
 (* apply one stimulus; None = the model cannot do what the implementation did *)
-Definition apply_stim (p : rparams) (st : stim) (m : mstate) : option mstate :=
+Definition apply_stim (fails : list (N * N)) (p : rparams) (st : stim) (m : mstate) : option mstate :=
   let s := ms m in
   match st with
   | SAdd x => if adder_free s then Some (with_ms m (set_script [AddOp x] s)) else None
@@ -170,9 +185,15 @@ Definition apply_stim (p : rparams) (st : stim) (m : mstate) : option mstate :=
   | SHoldA => Some (mkM s true (holdT m) (heldA m) (heldT m) (passA m) (passT m))
   | SHoldT => Some (mkM s (holdA m) true (heldA m) (heldT m) (passA m) (passT m))
   | SRelease => Some (mkM s false false false false (passA m || heldA m) (passT m || heldT m))
-  | SComplete k =>
+  | SComplete k | SFail k _ =>
       match nth_error (sort_running (running 0 (fetchers s))) (N.to_nat k) with
-      | Some (i, _) => match complete_step fetchN i s with Some s' => Some (with_ms m s') | None => None end
+      | Some (i, x) =>
+          (* the stimulus must agree with the outcome function of the case *)
+          let consistent := match st, fail_mode x fails with
+                            | SFail _ mo, Some mo' => mo =? mo' | SComplete _, None => true | _, _ => false end in
+          if consistent then
+            match complete_step (fetch_of (fetchF fails)) i s with Some s' => Some (with_ms m s') | None => None end
+          else None
       | None => None
       end
   | SRead => Some m
@@ -187,15 +208,28 @@ Definition robs_eqb (a b : robs) : bool :=
   | (a1, a2, a3, a4, a5), (b1, b2, b3, b4, b5) => Bool.eqb a1 b1 && Bool.eqb a2 b2 && Bool.eqb a3 b3 && (a4 =? b4) && (a5 =? b5)
   end.
 
-Fixpoint rreplay (p : rparams) (steps : list rstep) (m : mstate) : bool * mstate :=
+(* the batch whose fetch a stimulus completes (for the error log of the model: x_done / x_errs of Model/Reorder.v) *)
+Definition completed_by (st : stim) (m : mstate) : list (list N) :=
+  match st with
+  | SComplete k | SFail k _ =>
+      match nth_error (sort_running (running 0 (fetchers (ms m)))) (N.to_nat k) with
+      | Some (i, _) => completing i (ms m)
+      | None => []
+      end
+  | _ => []
+  end.
+
+Fixpoint rreplay (fails : list (N * N)) (p : rparams) (steps : list rstep) (m : mstate) (done : list (list N))
+  : bool * mstate * list (list N) :=
   match steps with
-  | [] => (true, m)
+  | [] => (true, m, done)
   | (st, o) :: r =>
-      match apply_stim p st m with
-      | None => (false, m)
+      match apply_stim fails p st m with
+      | None => (false, m, done)
       | Some m1 =>
           let m2 := stabilise 400 p m1 in
-          if robs_eqb (observe m2) o then rreplay p r m2 else (false, m2)
+          let done' := done ++ completed_by st m in
+          if robs_eqb (observe m2) o then rreplay fails p r m2 done' else (false, m2, done')
       end
   end.
 
@@ -218,6 +252,12 @@ Definition adder_ok (per : N) (batches : list (list (N * N))) (a : N) : bool :=
   forallb is_run projs &&
   nlist_eqb (concat (fold_right ins_run [] projs)) (map N.of_nat (seq 0 (N.to_nat per))).
 
+Fixpoint ins_n (x : N) (l : list N) : list N :=
+  match l with
+  | [] => [x]
+  | y :: l' => if x <=? y then x :: l else y :: ins_n x l'
+  end.
+
 (* ------------------------------------------------------------------ all together *)
 
 Definition check_case (c : case) : list N :=
@@ -226,17 +266,25 @@ Definition check_case (c : case) : list N :=
       bcheck (mkBP max delay) ops b_init [] ++
       (if nlist_eqb (b_handed ops) (b_added ops) then [] else [12]) ++
       (if stale_ok ops 0 [] [] then [] else [13])
-  | RCase max delay buf steps added_o out_o fetched settled =>
+  | RCase max delay buf steps added_o out_o fetched fails errs settled =>
       let p := mkRP (mkBP max delay) buf true in
-      let r := rreplay p steps m_init in
-      let s := ms (snd r) in
-      (if fst r then [] else [4]) ++
-      (if fst r then (if nlist_eqb out_o (out s) then [] else [5]) ++
-                     (if list_eqb nlist_eqb fetched (flushed s) then [] else [6])
+      let r := rreplay fails p steps m_init [] in
+      let ok := fst (fst r) in
+      let s := ms (snd (fst r)) in
+      let model_errs := map (hd 0) (filter (failed (fetchF fails)) (snd r)) in
+      let failed_first := map (hd 0) (filter (failed (fetchF fails)) fetched) in
+      (if ok then [] else [4]) ++
+      (if ok then (if nlist_eqb out_o (out s) then [] else [5]) ++
+                  (if list_eqb nlist_eqb fetched (flushed s) then [] else [6]) ++
+                  (if nlist_eqb errs model_errs then [] else [7])
        else []) ++
-      (if nlist_eqb out_o (fetchN added_o) then [] else [10]) ++
+      (* spec, from the observations alone: every batch handed to FetchBatch contributes exactly what FetchBatch returned
+         for it (failed or not), in input order - nothing of another batch is lost or held up by a failure *)
+      (if nlist_eqb out_o (concat (map (fetch_of (fetchF fails)) fetched)) then [] else [10]) ++
       (if nlist_eqb (concat fetched) added_o then [] else [11]) ++
-      (if settled then [] else [15])
+      (if settled then [] else [15]) ++
+      (* every failed batch reported its error exactly once *)
+      (if nlist_eqb (fold_right ins_n [] errs) (fold_right ins_n [] failed_first) then [] else [16])
   | HCase nadders per batches =>
       (if forallb (fun b => forallb (fun e => fst e <? nadders) b) batches
           && forallb (adder_ok per batches) (map N.of_nat (seq 0 (N.to_nat nadders)))
